@@ -151,6 +151,8 @@ func c07(r *Run) {
 	runSessions(r, cases, outputDiffers)
 	regionRaw(r, r.N(1500, 40000))
 	escRuns(r, []string{"j", "q"}, []string{"jsonEscape", "jsonQuote"}, "jsonquote")
+	escConcurrent(r, append(forms, &escForm{Name: "region", Tpl: "{% jsonquote %}{%= v %}|{%= v %}{% endjsonquote %}"}), r.N(4000, 100000))
+	escViaCtxVar(r, []string{"jsonEscape", "jsonQuote", "je", "jq"})
 }
 
 func attrExpected(in []byte) []byte {
@@ -218,6 +220,8 @@ func c08(r *Run) {
 	regionRel(r, "htmlescape", "html", r.N(1500, 60000))
 	regionRaw(r, r.N(1500, 40000))
 	escRuns(r, []string{"h", "a"}, []string{"htmlEscape", "attrEscape"}, "htmlescape")
+	escConcurrent(r, append(forms, &escForm{Name: "region", Tpl: "{% htmlescape %}{%= v %}|{%= v %}{% endhtmlescape %}"}), r.N(4000, 100000))
+	escViaCtxVar(r, []string{"htmlEscape", "attrEscape", "he", "ae"})
 }
 
 func natsOf(s string) ([]int, bool) {
@@ -317,4 +321,6 @@ func c10(r *Run) {
 	}
 	runSessions(r, cases, outputDiffers)
 	escRuns(r, []string{"J", "c"}, []string{"jsEscape", "cssEscape"}, "")
+	escViaCtxVar(r, []string{"jsEscape", "cssEscape", "jse", "ce"})
+	escConcurrent(r, forms, r.N(4000, 100000))
 }
